@@ -627,7 +627,11 @@ fn attribute_literal(acc: &mut Acc, fmt: Fmt, ctx: Option<(&RtTerm, &str, &Optio
     let mut pairs = vec![];
     for (i, a) in feats.iter().enumerate() {
         for b in feats.iter().skip(i + 1) {
-            pairs.push((format!("{}+{}", a.name(), b.name()), isolate(l, &[*a, *b])));
+            // a pair with a must-be-escaped character gets one name per format: whatever the partner
+            // is, the value cannot survive a writer that does not escape / a reader that does not unescape
+            let esc = |f: &Feat| matches!(f, Feat::Escape | Feat::LeadingDquote);
+            let name = if esc(a) || esc(b) { "escape_combined".to_string() } else { format!("{}+{}", a.name(), b.name()) };
+            pairs.push((name, isolate(l, &[*a, *b])));
         }
     }
     rounds.push(pairs);
